@@ -6,7 +6,16 @@ C09b.lean (bootstrap `_build_curve` as a fold with the solver as a parameter: ea
 CDS repriced within the solver's post-condition on the final curve, par spread = quote, survival locality, starts at 1),
 C09c.lean (protection-leg scheme as coded: sign, bound (1-R)(1-Q(T)), exact flat-hazard closed form for every step count,
 monotone in the hazard, zero hazard, recovery linearity), C09d.lean (accrual-on-default sign/bound, annuity sandwich,
-zero hazard, clean price / premium leg / upfront identities, flat knots interpolate to the exponential).
+zero hazard, clean price / premium leg / upfront identities, flat knots interpolate to the exponential),
+C09e.lean (`value_fast_approx` = the flat-hazard closed form: identities, par coupon = hazard x (1-R) x 360/365, short-protection
+sensitivities off by -2 x accrued; `survival_prob` on vectors = element-wise scalar), C09f.lean (annuity = first coupon + survival
+sum + accrual-on-default sum exactly; all but the last non-increasing in a flat hazard; accrual on default <= HALF a period's accrual
+on the period's default probability), C09g.lean (the solver's root: unique per pass / same curve for any exact root finder when the
+objective is strictly monotone; a root with non-negative forward hazard exists iff the clean PV at zero forward hazard is <= 0;
+knots non-increasing iff that sign holds at every pillar), C09h.lean (the FULL annuity as coded is non-increasing, and the clean PV
+of the coded legs strictly increasing, in a flat hazard while h x period + discounting from the first coupon <= 1 per period),
+C09i.lean (first pillar of the bootstrap: the solver's objective is that flat-hazard clean PV, strictly decreasing in the knot => the
+first knot is unique).
 Model: FinVerif/Model/C09.lean + C09Boot.lean (+C09F Float glue), run as `c09driver` against `_risky_pv01_numba` /
 `_prot_leg_pv_numba` called directly with arrays (ops RPV, PROT), against the CDS object's methods for every premium-leg
 convention (op VAL; the accrued fraction is the contract's own day-count fraction computed by the harness) and against the
@@ -21,9 +30,11 @@ sys.path.insert(0, os.path.dirname(os.path.dirname(os.path.abspath(__file__))))
 import common as C  # noqa: E402
 import exedriver    # noqa: E402
 from props import c09_rebuild as R  # noqa: E402
+from props import c09_fast as FA  # noqa: E402
 from floatcmp import f2b, b2f, close  # noqa: E402
 
-PROPS = ['FinVerif.Props.C09', 'FinVerif.Props.C09b', 'FinVerif.Props.C09c', 'FinVerif.Props.C09d']
+PROPS = ['FinVerif.Props.C09', 'FinVerif.Props.C09b', 'FinVerif.Props.C09c', 'FinVerif.Props.C09d', 'FinVerif.Props.C09e',
+         'FinVerif.Props.C09f', 'FinVerif.Props.C09g', 'FinVerif.Props.C09h', 'FinVerif.Props.C09i']
 DRIVERS = ['FinVerif.Driver.C09']
 MEASURE = bool(os.environ.get('C09_MEASURE'))
 # witnesses of findings of the main component (C09/rolled-last-coupon-reads-beyond-own-knot, C09/inverted-quotes-negative-forward-hazard)
@@ -42,7 +53,10 @@ RULE = ('seeded CDS curves: valuation dates on and +-1..3 days around the 20 Mar
         'quotes and a trade whose premium-leg day count is drawn from every DayCountTypes member a CDS accepts (all but '
         'ACT_ACT_ICMA), frequency from every FrequencyTypes member with a period, all 15 calendars, all 5 business-day rules, '
         'both date-generation rules, long/short, step-in on or 1..45 days after the valuation date, IMM and off-cycle '
-        'maturities (incl. single-coupon contracts); each curve is bootstrapped with the solver call intercepted. Non-trivial '
+        'maturities (incl. single-coupon contracts); each curve is bootstrapped with the solver call intercepted. Curve-free '
+        'valuation: value_fast_approx on contracts of every convention, flat rates -0.5%..8%, flat spreads 1bp..5000bp, curve and '
+        'contract recoveries equal or different, both directions; survival_prob on lists/arrays of times for the three supported '
+        'interpolation methods. Non-trivial '
         '= curve with >= 2 instruments; cases are distinct draws of one PRNG stream per component.')
 
 
@@ -247,6 +261,8 @@ def run(ctx):
 
     reuse_oracle(ctx, see, quick)
     conv_ops, conv_checks = conventions_oracle(ctx, see, quick)
+    fa_ops, fa_checks = FA.run_component(ctx, see, quick, _mk_cds, _conv_enums)     # own stream `fast`; ops FAST / SURV
+    conv_ops, conv_checks = conv_ops + fa_ops, conv_checks + fa_checks
     R.rebuild_finish(ctx, see, rebuild_cases, rebuild_proc)
 
     if drivers_ok and conv_ops:
@@ -306,6 +322,10 @@ def run(ctx):
         'solver call of the run, x = the value left in the knot; and WF = every time at which a quoted contract reads the '
         'survival curve lies in [0, its own maturity knot] (false when the maturity date is rolled forward: known finding '
         'C09/rolled-last-coupon-reads-beyond-own-knot)',
+        'C09g (root uniqueness / existence / knots non-increasing) ASSUMES that the solver objective is strictly decreasing in the '
+        'knot (strictly increasing in the forward hazard) and, for existence, continuous; that is PROVED for the first pillar '
+        '(C09i, from C09h: flat Ibor knots, spot-starting quote, h x period + discounting from the first coupon date <= 1 in every '
+        'period) and assumed for later pillars',
         'C09c/C09d read log/exp/abs as the real functions (opsR); sign/bound theorems assume positive, non-increasing '
         'survival (and, for upper bounds, discount) curves from the step-in time on',
     ]
@@ -693,6 +713,11 @@ def _conv_eval(case, want_ops=True):
                           FINDING_ROLLED if (rolled and later and drift <= 1e-3 * scale) else
                           FINDING_SINGLE if single_q else None))
         stats['conv.knot-minus-returned-root'] = max(stats.get('conv.knot-minus-returned-root', 0.0), abs(call['left'] - call['root']))
+        # the ASSUMPTION of Props/C09g (objective strictly decreasing in the knot), observed at the two recorded probe points
+        # 0.97 x0 < 0.999 x0 of every solver pass: a statistic (count of passes where it does not hold), not an oracle
+        fp = call['f_probes']
+        stats['boot.passes-objective-not-decreasing-at-probes'] = (stats.get('boot.passes-objective-not-decreasing-at-probes', 0.0)
+                                                                    + (0.0 if fp[0] > fp[1] else 1.0))
     # ---- the trade and every quote: identities with the accrued fraction computed independently
     trade = _mk_cds(step_in, case['trade'])
     for who, c in [('trade', trade)] + [(f'quote[{i}]', c) for i, c in enumerate(quotes)]:
@@ -901,6 +926,14 @@ def replay(ctx, path):
             print('replay: fresh subprocess failed:', e)
             wobs = None
         fails, _ = R.evaluate(case, wobs)
+        for clause, what, details, finding in fails:
+            print(f'replay: {clause}: {what} {json.dumps(details, default=str)[:600]} (classifier {finding})')
+        if any(f[0] == v['clause'] for f in fails):
+            print(f'VIOLATION property=C09 replay={path}')
+            return 1
+        return 0
+    if str(v.get('clause', '')).startswith(('fast-', 'surv-')):
+        fails = FA.eval_fast(cs, _mk_cds)[0] if v['clause'].startswith('fast-') else FA.eval_surv(cs)[0]
         for clause, what, details, finding in fails:
             print(f'replay: {clause}: {what} {json.dumps(details, default=str)[:600]} (classifier {finding})')
         if any(f[0] == v['clause'] for f in fails):
